@@ -533,9 +533,20 @@ func sizeSibling(c *Ctx) int {
 		a, b := shape(pms), shape(pmt)
 		n++
 		r.Add("SIBLING.size", core.FuncName(pmt), "returned count has the same three terms as Packet.MarshalSize (header + payload + padding)", p.Position(pmt.Pos()),
-			a != "" && strings.Count(a, "+") == strings.Count(b, "+") && strings.Contains(b, "PaddingSize") && strings.Contains(a, "PaddingSize"), "MarshalSize: "+a+" ; MarshalTo: "+b)
+			a != "" && b != "" && !strings.Contains(a, ";") && eachPartLike(b, a), "MarshalSize: "+a+" ; MarshalTo: "+b)
 	}
 	return n
+}
+
+// eachPartLike: every returned sum of MarshalTo (one per return statement) has as many terms as
+// MarshalSize's sum and ends in the padding size.
+func eachPartLike(parts, ref string) bool {
+	for _, pt := range strings.Split(parts, ";") {
+		if strings.Count(pt, "+") != strings.Count(ref, "+") || !strings.Contains(pt, "PaddingSize") || !strings.Contains(ref, "PaddingSize") {
+			return false
+		}
+	}
+	return true
 }
 
 func isBufIndex(addr ssa.Value, fn *ssa.Function) bool {
